@@ -150,22 +150,30 @@ impl<CS: CLCiphersuite> BlindSignature<CL03<CS>> {
             );
         }
 
+        // a signature on another attribute vector gets an exponent and a blinding value of its own, as in blind_sign: with the old e, the
+        // quotient of the two signatures is a_j^(delta / e), from which signatures on vectors that were never issued can be derived
+        let mut e = random_prime(CS::le);
         let phi_N = (&sk.p - Integer::from(1)) * (&sk.q - Integer::from(1));
-        let e2n = Integer::from(self.e().invert_ref(&phi_N).unwrap());
+        while ((&e > &Integer::from(2).pow(CS::le - 1))
+            && (&e < &Integer::from(2).pow(CS::le))
+            && (Integer::from(e.gcd_ref(&phi_N)) == 1))
+            == false
+        {
+            e = random_prime(CS::le);
+        }
+
+        let rprime = random_bits(CS::ls);
+        let e2n = Integer::from(e.invert_ref(&phi_N).unwrap());
 
         let v = Integer::from(
             (extended_commitment.value()
-                * Integer::from(pk.b.pow_mod_ref(self.rprime(), &pk.N).unwrap())
+                * Integer::from(pk.b.pow_mod_ref(&rprime, &pk.N).unwrap())
                 * &pk.c)
                 .pow_mod_ref(&e2n, &pk.N)
                 .unwrap(),
         );
 
-        let sig = CL03BlindSignature {
-            e: self.e().clone(),
-            rprime: self.rprime().clone(),
-            v,
-        };
+        let sig = CL03BlindSignature { e, rprime, v };
         Self::CL03(sig)
     }
 }
